@@ -119,3 +119,37 @@ Print Assumptions C10_journal_at_k.
 Theorem C10_no_hidden_state : forall r sv f p, model (Req r sv f true p) = model (Req r sv f false p).
 Proof. exact warm_irrelevant. Qed.
 Print Assumptions C10_no_hidden_state.
+
+(* The response_mode (default / query / fragment / form_post) of an authorization request or
+   callback, whatever the response type, only shapes the answer of the fault-free path: for every
+   router, storage, flow, mode and plan the storage calls are the same, the failure is reached in
+   the same runs, and a reached failure is answered exactly as in the original mode - in particular
+   the 200 page of form_post (which carries the code / tokens) is never the answer to a failure. *)
+Theorem C10_response_mode_only_success :
+  forall r sv f m p,
+  journal p (handler r sv (set_mode f m)) = journal p (handler r sv f) /\
+  hit p (handler r sv (set_mode f m)) = hit p (handler r sv f) /\
+  (hit p (handler r sv f) = true ->
+   answer p (handler r sv (set_mode f m)) = answer p (handler r sv f)).
+Proof. exact response_mode_only_success. Qed.
+Print Assumptions C10_response_mode_only_success.
+
+Theorem C10_response_mode_nonvacuous :
+  exists p, hit p (handler RProvider SStd (FCallbackCode Web MFormPost)) = true /\
+    r_cls (answer PNone (handler RProvider SStd (FCallbackCode Web MFormPost))) = KOk /\
+    r_cls (answer PNone (handler RProvider SStd (FCallbackCode Web MDefault))) = K302 /\
+    r_cls (answer p (handler RProvider SStd (FCallbackCode Web MFormPost))) = K302Err.
+Proof. exact response_mode_nonvacuous. Qed.
+Print Assumptions C10_response_mode_nonvacuous.
+
+(* A storage whose failing call has done its work before reporting the failure (SKeep: results and
+   side effects come back together with the error - a commit whose acknowledgement timed out, a
+   lookup that returns what it found with the error, an out-parameter filled before the failure) is
+   answered exactly like one that returns nothing: no handler looks at what a failing call returned.
+   The driver runs every flow against such a storage; all theorems above cover SKeep as a value of sv. *)
+Theorem C10_failure_results_ignored :
+  forall r f p,
+  model (Req r SKeep f false p) = model (Req r SStd f false p) /\
+  model (Req r SKeep f true p) = model (Req r SStd f true p).
+Proof. exact failure_results_ignored. Qed.
+Print Assumptions C10_failure_results_ignored.
